@@ -16,6 +16,12 @@ From SV Require Props.C08 Props.C09 Props.C13 Props.C14.
 From Coq Require Import Lia ZifyBool ZifyN ZifyNat.
 Ltac Zify.zify_post_hook ::= Z.div_mod_to_equations.
 
+Module Ps := SV.Model.Parser.
+Module T := SV.Model.Transforms.
+Module R := SV.Model.Routing.
+Module S := SV.Model.Serializer.
+Module K := SV.Model.Packer.
+Module F := SV.Model.Framing.
 Module TP := SV.Proofs.TransformsProofs.
 Module RP := SV.Proofs.RoutingProofs.
 Module SS := SV.Spec.SerializerSpec.
